@@ -28,6 +28,8 @@ def ref_encrypt(alg, key, data):
 
 
 def oracle(inp):
+    if not isinstance(inp, dict) or inp.get('kind') not in ('kat','iso0','iso4','enc'):
+        return None          # unknown input kind (model of another property's unit)
     import warnings
     warnings.simplefilter('ignore')
     from cardutil import pinblock as pb
